@@ -25,8 +25,11 @@ def sh(cmd, cwd=None, timeout=3600):
     return p.returncode, p.stdout
 
 
+TOOLCHAIN = []
+
+
 def suite(wt, features):
-    cmd = ["cargo", "test", "--offline"] + (["--features", features] if features else [])
+    cmd = ["cargo"] + TOOLCHAIN + ["test", "--offline"] + (["--features", features] if features else [])
     rc, out = sh(cmd, cwd=os.path.join(wt, "jmespath"))
     res = re.findall(r"^test result: (\w+)\. (\d+) passed; (\d+) failed", out, re.M)
     return rc == 0 and all(r[0] == "ok" for r in res), sum(int(r[1]) for r in res), out
@@ -47,7 +50,7 @@ def verify(src, wt, features=None):
     def demo():
         if os.path.exists(demo_rs):
             shutil.copy(demo_rs, tfile)
-            cmd = ["cargo", "test", "--offline", "--test", tname] + (["--features", features] if features else [])
+            cmd = ["cargo"] + TOOLCHAIN + ["test", "--offline", "--test", tname] + (["--features", features] if features else [])
             rc, out = sh(cmd, cwd=os.path.join(wt, "jmespath"))
             os.remove(tfile)
             return rc == 0, out[-800:]
@@ -68,6 +71,12 @@ def verify(src, wt, features=None):
             oks = oks and oks2
         ok1, o1 = demo()
         rep["demo_fails_with_change"] = not ok1
+        if "jmespath-cli" in open(patch).read():
+            # the CLI's own tests, through the wrapper package the demo script creates (the repo's jmespath-cli lock file cannot be resolved offline)
+            w = os.environ.get("JP_WRAPPER_DIR", "/tmp/mut/scratch/C18w")
+            rc, out = sh("CARGO_TARGET_DIR=%s/target cargo test --offline 2>&1 | tail -5" % w, cwd=os.path.join(w, "jmespath-cli"))
+            rep["cli_tests_pass_with_change"] = "test result: ok" in out and "FAILED" not in out
+            oks = oks and rep["cli_tests_pass_with_change"]
         rep["confirmed"] = bool(ok0 and oks and not ok1)
         if not rep["confirmed"]:
             rep["logs"] = dict(without=o0, suite=so[-800:], with_=o1)
@@ -130,6 +139,8 @@ def main():
     a = sys.argv[1:]
     if a[0] == "verify":
         feats = a[a.index("--features") + 1] if "--features" in a else None
+        if "--toolchain" in a:
+            TOOLCHAIN.append("+" + a[a.index("--toolchain") + 1])
         sys.exit(0 if verify(a[1], a[2], feats) else 1)
     if a[0] == "run":
         tier = a[a.index("--tier") + 1] if "--tier" in a else "quick"
